@@ -950,6 +950,7 @@ func (fr *frame) applyContract(st *State, call *ast.CallExpr, fn *types.Func, c 
 	if c.Trusted {
 		fr.fc.reg.trustedUsed[funcKey(fn)+" (trusted contract)"] = true
 	}
+	fr.viaApplyContract = true
 	return fr.applyContractSig(st, call, shortFuncName(fn), fn.Type().(*types.Signature), pkg, c, recv, args)
 }
 
@@ -960,6 +961,16 @@ func (fr *frame) applyContractSig(st *State, call *ast.CallExpr, name string, si
 		p = pp
 	}
 	env := &SpecEnv{reg: fc.reg, pkg: p, st: st, vars: map[string]*Value{}}
+	var localsFr *frame
+	if c.Flags["locals"] == "true" {
+		// contract of a function value held in a local (`Func#name`): it may mention the locals of the enclosing function
+		localsFr = fr
+		env.fr = fr
+	}
+	if c.Trusted && !fr.viaApplyContract {
+		fc.reg.trustedUsed[strings.TrimPrefix(p.PkgPath, modulePath+"/")+"."+name+" (trusted contract)"] = true
+	}
+	fr.viaApplyContract = false
 	if c.RecvName != "" && recv != nil {
 		env.vars[c.RecvName] = recv
 	} else if c.External != "" && recv != nil {
@@ -989,7 +1000,7 @@ func (fr *frame) applyContractSig(st *State, call *ast.CallExpr, name string, si
 		fc.oblige(st, fr, "pre", fmt.Sprintf("pre@%s#%d/%s", name, ord, lbl), g)
 	}
 	pre := st.clone()
-	preEnv := &SpecEnv{reg: fc.reg, pkg: p, st: pre, vars: env.vars}
+	preEnv := &SpecEnv{reg: fc.reg, pkg: p, st: pre, vars: env.vars, fr: localsFr}
 	// modifies
 	allocates := c.Flags["allocates"] == "true"
 	for _, cl := range c.Clauses {
@@ -1019,7 +1030,7 @@ func (fr *frame) applyContractSig(st *State, call *ast.CallExpr, name string, si
 		v := freshValue(sig.Results().At(i).Type(), "ret:"+name)
 		results = append(results, v)
 	}
-	env2 := &SpecEnv{reg: fc.reg, pkg: p, st: st, vars: map[string]*Value{}, old: preEnv}
+	env2 := &SpecEnv{reg: fc.reg, pkg: p, st: st, vars: map[string]*Value{}, old: preEnv, fr: localsFr}
 	for k, v := range env.vars {
 		env2.vars[k] = v
 	}
@@ -1032,7 +1043,7 @@ func (fr *frame) applyContractSig(st *State, call *ast.CallExpr, name string, si
 		st.assumeLoaded(v)
 	}
 	// inside old(...) the result names are visible too (they are values, not state)
-	env2.old = &SpecEnv{reg: fc.reg, pkg: p, st: pre, vars: env2.vars}
+	env2.old = &SpecEnv{reg: fc.reg, pkg: p, st: pre, vars: env2.vars, fr: localsFr}
 	for _, cl := range c.Clauses {
 		if cl.Kind == "ensures" {
 			st.assume(env2.evalBool(cl.Expr))
